@@ -142,7 +142,8 @@ def rules_c21(ctx):
     c = crate()
     tcs = tick_closures(c)
     R = ctx.rule("C21.gen", "generated code (corpus pairs): the 'tick variant resets operator state between the last subgraph and __end_tick(), the 'static variant does not", floor=3)
-    for tick, static in (("p_fold_tick", "p_fold_static"), ("p_unique_tick", "p_unique_static"), ("p_join_tick_tick", "p_join_static_static")):
+    for tick, static, nstate in (("p_fold_tick", "p_fold_static", 1), ("p_unique_tick", "p_unique_static", 1), ("p_join_tick_tick", "p_join_static_static", 2),
+                                 ("p_zip_tick_tick", "p_zip_static_static", 2), ("p_anti_join", "p_anti_join_static", 1)):
         bt, bs = tcs.get(tick), tcs.get(static)
         if bt is None or bs is None:
             ctx.anchor_missing(R, "corpus pair %s / %s" % (tick, static))
@@ -161,6 +162,10 @@ def rules_c21(ctx):
         if res[tick] is None or res[static] is None:
             ctx.violation(R, "corpus|%s|shape" % tick, "cannot locate the tick-end region of the generated closure (fail closed)")
             continue
+        import re as _re
+        fields = set(_re.sub(r".*(_1\.\d+).*", r"\1", w[1]) for w in res[tick])
+        if res[tick] and len(fields) < nstate:
+            ctx.violation(R, "corpus|%s|reset-targets" % tick, "%s: the operator has %d pieces of 'tick state but the end-of-tick code re-initialises only %s" % (tick, nstate, sorted(fields)), bt.loc())
         if not res[tick]:
             ctx.violation(R, "corpus|%s|no-reset" % tick, "%s: no operator state is re-initialised at the end of the tick although the operator has 'tick persistence" % tick, bt.loc())
         if res[static]:
